@@ -1,10 +1,13 @@
 package world
 
 import (
+	"context"
 	"encoding/json"
 	"fmt"
 	"os"
 	"sort"
+	"sync"
+	"sync/atomic"
 	"syscall"
 	"time"
 
@@ -138,7 +141,7 @@ func Replay(r *Recording, mode string) ([]Outcome, error) {
 		hot[h] = true
 	}
 	var out []Outcome
-	for _, bz := range r.Blocks {
+	for bi, bz := range r.Blocks {
 		var req abci.RequestFinalizeBlock
 		if err := req.Unmarshal(bz); err != nil {
 			return out, err
@@ -180,18 +183,138 @@ func Replay(r *Recording, mode string) ([]Outcome, error) {
 				}
 			}
 		}
+		var busy *busyLoad
+		if mode == "busy" {
+			var next [][]byte
+			if bi+1 < len(r.Blocks) {
+				var nr abci.RequestFinalizeBlock
+				if nr.Unmarshal(r.Blocks[bi+1]) == nil {
+					next = nr.Txs
+				}
+			}
+			busy = startBusyLoad(n, req.Txs, next, req.Height%2 == 0)
+		}
 		n.EL.SetPhase("finalize")
 		from := n.EL.NCalls()
 		fb, ferr := n.Finalize(&req)
 		out = append(out, OutcomeOf(req.Height, fb, n.EL.Calls(from), ferr))
+		if busy != nil {
+			busy.stopTxs() // CometBFT locks the mempool and drains its connection before Commit
+		}
 		if ferr != nil {
+			if busy != nil {
+				busy.stopAll()
+			}
 			return out, nil
 		}
 		if _, err := n.App.Commit(); err != nil {
+			if busy != nil {
+				busy.stopAll()
+			}
 			return out, err
+		}
+		if busy != nil {
+			busy.stopAll()
+			BusyStats.Add(busy)
 		}
 	}
 	return out, nil
+}
+
+// busyLoad is what a live node does next to block execution: the mempool connection checks transactions, the gRPC
+// server simulates transactions and answers queries - on other goroutines, while FinalizeBlock runs on the consensus
+// connection (queries also during Commit). None of it may influence the block's outcome.
+type busyLoad struct {
+	txStop, qStop     chan struct{}
+	txWG, qWG         sync.WaitGroup
+	checks, sims, qs  atomic.Int64
+	simsOK            atomic.Int64
+	txStopped, qEnded bool
+}
+
+type busyStats struct{ Checks, Sims, SimsOK, Queries atomic.Int64 }
+
+func (b *busyStats) Add(l *busyLoad) {
+	b.Checks.Add(l.checks.Load())
+	b.Sims.Add(l.sims.Load())
+	b.SimsOK.Add(l.simsOK.Load())
+	b.Queries.Add(l.qs.Load())
+}
+
+// BusyStats counts what the busy replica did next to block execution (reported by the replica process).
+var BusyStats busyStats
+
+func startBusyLoad(n *Node, cur, next [][]byte, checkTx bool) *busyLoad {
+	b := &busyLoad{txStop: make(chan struct{}), qStop: make(chan struct{})}
+	var txs [][]byte
+	txs = append(txs, cur...)
+	txs = append(txs, next...)
+	app := n.App
+	loop := func(wg *sync.WaitGroup, stop chan struct{}, f func(i int)) {
+		wg.Add(1)
+		go func() {
+			defer wg.Done()
+			for i := 0; ; i++ {
+				select {
+				case <-stop:
+					return
+				default:
+				}
+				f(i)
+			}
+		}()
+	}
+	// CheckTx moves the check state's account sequences, after which a simulation of the same sender's transaction stops at
+	// the sequence check; so that simulated handlers really run next to the block's, blocks alternate between a mempool
+	// load (even heights) and a simulation load (odd heights)
+	if len(txs) > 0 && checkTx {
+		// the mempool connection: one CheckTx at a time
+		loop(&b.txWG, b.txStop, func(i int) {
+			_, _ = app.CheckTx(&abci.RequestCheckTx{Tx: txs[i%len(txs)], Type: abci.CheckTxType_New})
+			b.checks.Add(1)
+		})
+	}
+	if len(txs) > 0 && !checkTx {
+		// gRPC simulations: two callers
+		for k := 0; k < 2; k++ {
+			k := k
+			loop(&b.txWG, b.txStop, func(i int) {
+				func() {
+					defer func() { _ = recover() }()
+					if _, _, err := app.Simulate(txs[(i+k*3)%len(txs)]); err == nil {
+						b.simsOK.Add(1)
+					}
+				}()
+				b.sims.Add(1)
+			})
+		}
+	}
+	paths := []string{"/goat.relayer.v1.Query/Relayer", "/goat.goat.v1.Query/EthBlockTip", "/goat.bitcoin.v1.Query/Params", "/goat.bitcoin.v1.Query/BlockTip", "/goat.relayer.v1.Query/Pubkeys", "/goat.locking.v1.Query/Params"}
+	loop(&b.qWG, b.qStop, func(i int) {
+		func() {
+			defer func() { _ = recover() }()
+			_, _ = app.Query(context.Background(), &abci.RequestQuery{Path: paths[i%len(paths)]})
+		}()
+		b.qs.Add(1)
+	})
+	return b
+}
+
+func (b *busyLoad) stopTxs() {
+	if !b.txStopped {
+		b.txStopped = true
+		close(b.txStop)
+		b.txWG.Wait()
+	}
+}
+
+func (b *busyLoad) stopAll() {
+	b.stopTxs()
+	if !b.qEnded {
+		b.qEnded = true
+		close(b.qStop)
+		b.qWG.Wait()
+	}
 }
 
 // reinitIfEmpty does what CometBFT's handshake does when the application reports height 0 after a
